@@ -258,7 +258,7 @@ def oracle_fit(ctx, case, G, emb, dv):
     # which samples must be isolated: with r > 0 and the exact neighbour search, exactly those at or beyond t from every other sample
     # (the nearest other sample is always a kNN member with strength 1, local_connectivity >= 1)
     band = False
-    if case["r"] > 0 and case["kind"] not in ("approx", "pre_sparse_part"):
+    if case["r"] > 0 and case["kind"] not in ("approx", "pre_sparse_part", "supervised"):
         Dm = D + np.where(np.eye(n, dtype=bool), np.inf, 0.0)
         near = [float(x) for x in Dm.min(axis=1)]
         for i in range(n):
@@ -504,6 +504,33 @@ def run_weak_cases(ctx, rng, npr):
                                                           w_max=float(wmax), weak_only=np.flatnonzero(weak_only).tolist()))
 
 
+def run_supervised_cases(ctx, rng, npr):
+    """categorical target with target_weight = 1 (edges between different known labels vanish): a sample all of whose neighbours carry
+    another label loses every edge in graph_ -- it is isolated in the FITTED graph and must get an all-NaN row and be reported by
+    disconnected_vertices, like a sample isolated by the disconnection distance"""
+    for rep in range(2 if ctx.tier == "quick" else 8):
+        n = rng.randint(30, 44); k = rng.randint(4, 7)
+        X = (npr.normal(size=(n, 3)) + np.where(np.arange(n)[:, None] < n // 2, 0.0, 6.0)).astype(np.float32)
+        y = (np.arange(n) >= n // 2).astype(np.int64)
+        flip = rng.sample(range(n), 2)
+        y[flip] = 1 - y[flip]
+        if rep % 2: y[rng.sample([i for i in range(n) if i not in flip], 3)] = -1
+        D = pdist64("euclidean", X); np.fill_diagonal(D, 0.0)
+        r = [1.0, 0.3][rep % 2]
+        case = dict(kind="supervised", metric="euclidean", base="euclidean", X=X, D=D, labels=y.tolist(), k=k, r=r, init=rng.choice(["spectral", "random"]),
+                    lc=1, n_epochs=rng.choice([12, 30]), seed=rng.randint(0, 10 ** 6), exact_t=False, q="supervised", t=None)
+        desc = case_desc(case, dict(y=y, target_weight=1.0))
+        try:
+            m = umap.UMAP(n_neighbors=k, set_op_mix_ratio=r, n_epochs=case["n_epochs"], init=case["init"], random_state=case["seed"], target_weight=1.0).fit(X.copy(), y.copy())
+            G = m.graph_.tocsr(); G.sum_duplicates()
+            emb = np.asarray(m.embedding_); dv = disconnected_vertices(m)
+        except Exception as e:
+            ctx.fail("UMAP.fit:raises", "%s: %s (supervised, target_weight=1)" % (type(e).__name__, str(e)[:160]), desc); continue
+        iso, _ = oracle_fit(ctx, case, G, emb, dv)
+        ctx.tag(("supervised", X.tobytes(), y.tobytes(), r), ["supervised_target_weight_1"] + (["isolated_by_supervision"] if iso.any() else []))
+        ctx.count("supervised_case")
+
+
 def run(ctx):
     T0 = time.time(); ctx.check_proofs(["prop/P_C04.v"]); ctx.extra["timing_s"] = {"proofs": round(time.time() - T0, 1)}
     P = srcparams.module_constants("umap/umap_.py", {"SMOOTH_K_TOLERANCE", "MIN_K_DIST_SCALE"})
@@ -528,6 +555,7 @@ def run(ctx):
         case = make_case(rng, npr, kind, q)
         run_case(ctx, rng, npr, case, P, terms, cases, tr_terms, tr_cases)
     run_weak_cases(ctx, rng, npr)
+    run_supervised_cases(ctx, rng, npr)
     ctx.extra["timing_s"]["implementation_and_oracle"] = round(time.time() - T0 - ctx.extra["timing_s"]["proofs"], 1)
     hdr = ("From Coq Require Import List ZArith PrimFloat. From UV Require Import Num FNum M_knn M_disconnect V_disconnect.\n"
            "Import ListNotations. Open Scope float_scope.\n")
